@@ -318,7 +318,7 @@ func runW4(s *core.Shard, next func(string) bool) {
 					_ = os.MkdirAll(filepath.Dir(filepath.Join(dir, r.Path)), 0o755)
 					_ = os.Symlink(filepath.Join(dir, "does-not-exist"), filepath.Join(dir, r.Path))
 				}
-				checkLoaded(s, dir, c, ex)
+				judge(s, dir, c, ex, nil)
 				s.Add("w4_cases", 1)
 				s.Cover("w4-fault", fault)
 				s.Nontrivial(fault, c.Key(), r.Path)
@@ -341,36 +341,6 @@ func runW4(s *core.Shard, next func(string) bool) {
 				}
 			}
 		}
-	}
-}
-
-// checkLoaded is check() for an already materialised directory.
-func checkLoaded(s *core.Shard, dir string, c *ld.Case, ex expect) {
-	r := ld.Load(dir, c)
-	s.Eval(1)
-	files := map[string]any{"case.json": replayCase{Case: c, Expect: ex}}
-	if r.Panic != nil {
-		files["stack.txt"] = r.Panic.Stack
-		s.Violation(map[string]string{"kind": "panic", "site": r.Panic.Site, "class": r.Panic.Class, "validation": "on"}, "load panicked: "+r.Panic.Value+" ("+ex.Why+")", files)
-		return
-	}
-	if (r.Project == nil) == (r.Err == nil) {
-		s.Violation(map[string]string{"kind": "project-xor-error", "workload": "W4"}, "project and error both set or both nil ("+ex.Why+")", files)
-	}
-	if r.Err != nil {
-		s.Add("loads_err", 1)
-	} else {
-		s.Add("loads_ok", 1)
-	}
-	if len(ex.MustName) > 0 {
-		if r.Err == nil {
-			s.Violation(map[string]string{"kind": "missing-file-ignored", "why": faultClass(ex.Why)}, "load succeeded although a referenced file is unusable: "+ex.Why, files)
-		} else if !strings.Contains(r.Err.Error(), ex.MustName[0]) {
-			s.Violation(map[string]string{"kind": "missing-file-not-named", "why": faultClass(ex.Why)}, fmt.Sprintf("error %q does not name %s (%s)", r.Err, ex.MustName[0], ex.Why), files)
-		}
-	}
-	if ex.MustLoad && r.Err != nil {
-		s.Violation(map[string]string{"kind": "optional-file-fatal", "why": faultClass(ex.Why)}, fmt.Sprintf("load failed (%v) although only an optional file is unusable (%s)", r.Err, ex.Why), files)
 	}
 }
 
